@@ -28,22 +28,39 @@ package fiber
 // (it cannot be one of the buffers that existed before, which are the ones that get recycled).
 //@ macro freshBytes(b) = !old(allocated(arr(b)))
 
-// copies(f): the function value f is a copying conversion. New() installs getStringImmutable /
-// getBytesImmutable in app.getString / app.getBytes iff Config.Immutable: that is the well-formedness fact
-// every accessor relies on (wfImmutable).
-//@ fn copies(f ref) bool
+// copies(f): the function value f is one of the two copying conversions of helpers.go. It is a DEFINITION (no axiom):
+// New() proves which function values it stores in app.getString / app.getBytes (clauses
+// immutable-installs-copying-conversions / zero-copy-otherwise), nothing else in the package writes the two fields
+// (app.go:512-513 and app.go:565 are the only stores), and wfImmutable is the resulting well-formedness fact every
+// accessor relies on. What `copies(f) ==> stable(result)` (field contract App.getString) then rests on is the checked
+// contract of getStringImmutable below.
+//@ fn copies(f ref) bool = f == getStringImmutable || f == getBytesImmutable
 //@ macro wfImmutable(c) = c.app.config.Immutable ==> copies(c.app.getString)
 //@ macro orDefault(r, d) = len(d) > 0 && r == d[0]
 
 // The two conversions that New() installs when Config.Immutable is set.
+// getStringImmutable: strings are VALUES in the verifier (string(b) and utils.UnsafeString(b) denote the same value), so
+// "the result does not share storage with b" cannot be a formula over the result. What distinguishes a copy from a view is
+// how the value was made, and that IS visible: the only sources of a string with the content of b are the built-in
+// conversion (Go spec: copies), a contracted call (utils.UnsafeString: a view of b; utils.CopyString needs a string
+// first) or something unmodelled (unsafe pointer casts, unsafe.String: the result is havocked and same-content fails).
+// no-view-conversion pins the source: the activation makes no call of the view-making conversion. Together with
+// same-content this is the checked stand-in for "stable(result)" - the body `return utils.UnsafeString(b)` (or any
+// detour through it) fails it, a body that builds the string in any unmodelled way fails same-content.
+// REMAINING ASSUMPTION (Go language): the built-in conversion string([]byte) yields storage of its own.
 //@ func getStringImmutable
 //@   pure
 //@   ensures same-content: result == str(b)
+//@   ensures [C06] no-view-conversion: !called(@utils.UnsafeString)
 //@ func getBytesImmutable
 //@   ensures same-content: str(result) == s
 //@   ensures new-array: freshBytes(result)
 
 // app.getBytes (function-typed field): content-preserving; the Immutable variant returns a new array.
+// A function-typed field has no body: its contract is what EVERY function stored in the field must satisfy. The field
+// holds utils.UnsafeBytes (assumed dependency contract `str(result) == s`, utils.spec) or getBytesImmutable (checked
+// above: same-content, new-array) - clauses only-the-two-conversions / immutable-installs-copying-conversions of New -
+// so both clauses below follow from the contracts of the inhabitants; `assumed` is the syntax for a key without body.
 //@ func App.getBytes assumed pure allocates
 //@   ensures str(result) == arg0
 //@   ensures [C06] copying-variant: copies(fnvalue) ==> freshBytes(result)
@@ -306,9 +323,25 @@ package fiber
 // over the type parameter: outside the verifier's subset). Checked here: the string handed to
 // genericParseType is the result of app.getString (not of an unsafe conversion).
 // ---------------------------------------------------------------------------------------------
+// ENGINE LIMITATION (why the three result clauses are `trusted`, i.e. assumed at call sites and not checked): generic
+// functions are verified on their un-instantiated body, where the result and `defaultValue[0]` have the type
+// parameter V (no sort: a clause comparing them with a string yields an ill-sorted query), and an instance such as
+// GetReqHeader[string] cannot be named as a verification target. The clauses state the string instance (the only one
+// called inside the module: (*DefaultCtx).Get): the `case string` branch of genericParseType - the default replaces an
+// empty value - applied to app.getString(header value). CHECKED on the body: where the string comes from
+// (value-via-getString), that the header is read from this context's request with the caller's key
+// (reads-the-named-header), and the frame (pure; it rests on the frames of Ctx.App / genericParseType, see there).
 //@ func GetReqHeader
-//@   props C06
+//@   props C06 C10
+//@   pure
 //@   atcall genericParseType: value-via-getString: str == "" || (called(App.getString) && str == last(App.getString))
+//@   atcall @fasthttp.(*RequestHeader).Peek: [C10] reads-the-named-header: key == old(key) && called(Ctx.Request) && h == last(Ctx.Request).Header
+//@   trusted ensures [C10] header-value: typeis(c, *DefaultCtx) && len(defaultValue) == 0 ==> result == reqHeader(as(c, *DefaultCtx), key, epoch)
+//@   trusted ensures [C10] header-value-or-default: typeis(c, *DefaultCtx) && len(defaultValue) > 0 ==> result == ite(reqHeader(as(c, *DefaultCtx), key, epoch) == "", defaultValue[0], reqHeader(as(c, *DefaultCtx), key, epoch))
+//@   trusted ensures [C06] immutable-stable: typeis(c, *DefaultCtx) && as(c, *DefaultCtx).app.config.Immutable && copies(as(c, *DefaultCtx).app.getString) ==> stable(result) || (len(defaultValue) > 0 && result == defaultValue[0])
+// genericParseType[V] / assertValueType[V, T]: type switch and type assertion over the type parameter - outside the
+// generator's subset. Assumed: no effect on the heap (the bodies only call strconv and closures over assertValueType).
+//@ func genericParseType assumed pure
 
 // Query(key): Query[string] (assumed contract of the generic function in /verif/contracts/deps/mw_C15.spec).
 //@ func (*DefaultCtx).Query
@@ -320,19 +353,23 @@ package fiber
 // ---------------------------------------------------------------------------------------------
 // New() establishes the well-formedness fact: Immutable => the two conversions are the copying variants
 // ---------------------------------------------------------------------------------------------
-// string(b) / []byte(s) copy (Go semantics; getBytesImmutable's new array is proved above).
-//@ axiom copying-variants: copies(getStringImmutable) && copies(getBytesImmutable)
+// (the former axiom copying-variants is gone: copies() is defined by the two function values, see the vocabulary)
+// iff: the copying conversions are installed exactly when Config.Immutable is set; otherwise the zero-copy conversions of
+// utils stay (the values "correct until the handler returns" of the second sentence of the property come from those).
 
 // (C10 clauses of New / init: the proxy set built from Config.TrustProxyConfig.Proxies - macros in zz_contracts_c10_verif.go)
 //@ func New
 //@   props C06 C10
 //@   loop 1
-//@     invariant [C06] conversions-installed: app.config.Immutable ==> copies(app.getString) && copies(app.getBytes)
+//@     invariant [C06] conversions-installed: app.config.Immutable ==> app.getString == getStringImmutable && app.getBytes == getBytesImmutable
+//@     invariant [C06] zero-copy-otherwise: !app.config.Immutable ==> app.getString == utils.UnsafeString && app.getBytes == utils.UnsafeBytes
 //@     invariant [C10] entry-index: rangeindex + 1 <= len(app.config.TrustProxyConfig.Proxies)
 //@     invariant [C10] ips-exactly-listed-addresses: ipsExact(app.config.TrustProxyConfig, rangeindex + 1)
 //@     invariant [C10] ranges-only-listed-cidrs: rangesOnlyListed(app.config.TrustProxyConfig, rangeindex + 1)
 //@     invariant [C10] ranges-all-listed-cidrs: rangesAllListed(app.config.TrustProxyConfig, rangeindex + 1)
-//@   ensures [C06] immutable-installs-copying-conversions: result.config.Immutable ==> copies(result.getString) && copies(result.getBytes)
+//@   ensures [C06] immutable-installs-copying-conversions: result.config.Immutable ==> copies(result.getString) && copies(result.getBytes) && result.getString == getStringImmutable && result.getBytes == getBytesImmutable
+//@   ensures [C06] zero-copy-otherwise: !result.config.Immutable ==> result.getString == utils.UnsafeString && result.getBytes == utils.UnsafeBytes
+//@   ensures [C06] only-the-two-conversions: (result.getString == utils.UnsafeString || result.getString == getStringImmutable) && (result.getBytes == utils.UnsafeBytes || result.getBytes == getBytesImmutable)
 //@   ensures [C10] ips-exactly-listed-addresses: ipsExact(result.config.TrustProxyConfig, len(result.config.TrustProxyConfig.Proxies))
 //@   ensures [C10] ranges-only-listed-cidrs: rangesOnlyListed(result.config.TrustProxyConfig, len(result.config.TrustProxyConfig.Proxies))
 //@   ensures [C10] ranges-all-listed-cidrs: rangesAllListed(result.config.TrustProxyConfig, len(result.config.TrustProxyConfig.Proxies))
